@@ -79,6 +79,7 @@ def rand_doc_op(rng, slots):
 REDUCED = [
     ["set", "a", 1], ["set", "a", "s"], ["set", "d", {"x": 1}], ["nset", "d", "x", 3], ["del", "a"],
     ["update", {"a": 2.5, "l": [1, 2]}], ["lappend", "l", 1], ["clear"], ["reset", {"b": None}], ["pop", "a"],
+    ["reset_live", 0, 1],
 ]
 
 
@@ -188,6 +189,10 @@ def gen_cases(ctx):
             h = rng.randrange(nh)
             if mode in ("A", "S") and rng.random() < 0.08:
                 ops.append([t, h, [rng.choice(["remove_init", "rekey"])]])
+            elif mode in ("A", "B") and rng.random() < 0.05:
+                # whole reset whose new value is a live document object: this document itself (through the same or
+                # another handle) or another job's / the project's document
+                ops.append([t, h, ["reset_live", rng.randrange(ndocs), rng.randrange(nh)]])
             else:
                 ops.append([t, h, rand_doc_op(rng, slots)])
         case = {"mode": mode, "ndocs": ndocs, "nh": nh, "ops": ops}
@@ -352,8 +357,13 @@ def run_mode_A(ctx, case, stale=False):
                         D.linked[t] = False  # the acting sibling keeps pointing at the old original
                 loaded.pop((t, hh), None)
             continue
-        mcopy = copy.deepcopy(D.model[t])
-        ok, mret = apply_model(mcopy, op)
+        live = None
+        if op[0] == "reset_live":
+            live = ((t + op[1]) % D.ndocs, (h + op[2]) % D.nh)
+            mcopy, ok, mret = copy.deepcopy(D.model[live[0]]), True, None
+        else:
+            mcopy = copy.deepcopy(D.model[t])
+            ok, mret = apply_model(mcopy, op)
         if not ok:
             continue
         if op[0] == "setattr" and not op[1].isidentifier():
@@ -361,7 +371,12 @@ def run_mode_A(ctx, case, stale=False):
         try:
             doc = D.doc(t, h)
             loaded[(t, h)] = True
-            if op[0] == "reset" and len(op[1]) % 2 == 0:
+            if live:
+                ctx.monitor("reset_to_live_document")
+                loaded[live] = True
+                D.assign(t, h, D.doc(*live), alias=(op[1] + op[2]) % 2 == 0)
+                rret = None
+            elif op[0] == "reset" and len(op[1]) % 2 == 0:
                 D.assign(t, h, copy.deepcopy(op[1]), alias=len(op[1]) == 2)
                 rret = None
             else:
@@ -470,12 +485,21 @@ def run_buffered(ctx, case, multi_handle):
                             enter()
                         elif r < 0.35 and stack:
                             leave()
-                    mcopy = copy.deepcopy(D.model[t])
-                    ok, mret = apply_model(mcopy, op)
+                    live = None
+                    if op[0] == "reset_live":
+                        live = ((t + op[1]) % D.ndocs, ((h + op[2]) % nh) if multi_handle else 0)
+                        mcopy, ok, mret = copy.deepcopy(D.model[live[0]]), True, None
+                    else:
+                        mcopy = copy.deepcopy(D.model[t])
+                        ok, mret = apply_model(mcopy, op)
                     if not ok or (op[0] == "setattr" and not op[1].isidentifier()):
                         continue
                     doc = D.doc(t, h)
-                    if op[0] == "reset" and len(op[1]) % 2 == 0:
+                    if live:
+                        ctx.monitor("reset_to_live_document")
+                        D.assign(t, h, D.doc(*live), alias=(op[1] + op[2]) % 2 == 0)
+                        rret = None
+                    elif op[0] == "reset" and len(op[1]) % 2 == 0:
                         D.assign(t, h, copy.deepcopy(op[1]), alias=len(op[1]) == 2)
                         rret = None
                     else:
